@@ -21,6 +21,46 @@ func init() {
 	VerifHarnesses["VerifC01Arith"] = VerifC01Arith
 }
 
+// vSDE: a signed object whose signing root (SRoot: message root wrapped with the domain of its own epoch) is finer than
+// MessageRoot (Root), the key the partial-signature store groups by - like core.SignedSyncMessage, whose message root is
+// the block root while the slot decides the fork domain.
+type vSDE struct {
+	Root  byte
+	SRoot byte
+	Sig   [4]byte // kind, validator, share, signing root
+}
+
+func (d vSDE) Signature() core.Signature {
+	s := make(core.Signature, 96)
+	copy(s, d.Sig[:])
+	return s
+}
+
+func (d vSDE) SetSignature(sig core.Signature) (core.SignedData, error) {
+	var t [4]byte
+	copy(t[:], sig)
+	return vSDE{Root: d.Root, SRoot: d.SRoot, Sig: t}, nil
+}
+
+func (d vSDE) MessageRoot() ([32]byte, error) {
+	var r [32]byte
+	r[0] = d.Root
+	return r, nil
+}
+func (d vSDE) Clone() (core.SignedData, error) { return d, nil }
+func (d vSDE) MarshalJSON() ([]byte, error) {
+	return []byte{'"', d.Root, d.SRoot, d.Sig[0], d.Sig[1], d.Sig[2], d.Sig[3], '"'}, nil
+}
+
+// vSRootOf: the object's own signing root (what a verifier recomputes from root, domain and epoch).
+func vSRootOf(d core.SignedData) byte {
+	if e, ok := d.(vSDE); ok {
+		return e.SRoot
+	}
+	root, _ := d.MessageRoot()
+	return root[0]
+}
+
 type vDL struct{ ch chan core.Duty }
 
 func (d *vDL) Add(core.Duty) core.DeadlineStatus { return core.DeadlineScheduled }
@@ -51,13 +91,18 @@ func VerifC01Chain() {
 	db := parsigdb.NewMemDB(t, &vDL{ch: make(chan core.Duty, 1)}, parsigdb.NewMemDBMetadata(12, vrt.TimeAt(0)))
 	agg, err := New(t, func(_ context.Context, pk core.PubKey, d core.SignedData) error {
 		s := d.Signature()
-		root, _ := d.MessageRoot()
-		if len(s) == 96 && s[0] == 2 && s[1] == vValidatorOf(pk) && s[3] == root[0] {
+		if len(s) == 96 && s[0] == 2 && s[1] == vValidatorOf(pk) && s[3] == vSRootOf(d) {
 			return nil
 		}
 		return context.Canceled
 	})
 	vrt.Assert("aggregator constructed", err == nil)
+	split := vrt.Param("split") == 1 // signing roots finer than message roots (vSDE)
+	decidedS := decided
+	if split {
+		decidedS = vrt.Byte("decidedSigningRoot")
+	}
+	blocked := false // a Byzantine partial shares the decided message root but signs another signing root
 	db.SubscribeThreshold(agg.Aggregate)
 	broadcasts := 0
 	agg.Subscribe(func(_ context.Context, _ core.Duty, set core.SignedDataSet) error {
@@ -65,8 +110,8 @@ func VerifC01Chain() {
 			broadcasts++
 			s := d.Signature()
 			root, _ := d.MessageRoot()
-			vrt.Assert("every broadcast object carries the validator's group signature over its own signing root", len(s) == 96 && s[0] == 2 && s[1] == vValidatorOf(pk) && s[3] == root[0])
-			vrt.Assert("every broadcast object for the duty and validator has the decided signing root", root[0] == decided)
+			vrt.Assert("every broadcast object carries the validator's group signature over its own signing root", len(s) == 96 && s[0] == 2 && s[1] == vValidatorOf(pk) && s[3] == vSRootOf(d))
+			vrt.Assert("every broadcast object for the duty and validator has the decided signing root", root[0] == decided && vSRootOf(d) == decidedS)
 		}
 		return nil
 	})
@@ -77,21 +122,34 @@ func VerifC01Chain() {
 	for i := 0; i < k; i++ {
 		share := int(vrt.Byte(vrt.N("share", i)))
 		vrt.Assume(share >= 1 && share <= n)
-		root := decided
-		tok := [4]byte{1, 1, byte(share), decided}
+		root, sroot := decided, decidedS
+		tok := [4]byte{1, 1, byte(share), decidedS}
 		if share > n-f {
 			// Byzantine share: arbitrary root per delivery, signed with its own share (partials that do not verify for
 			// their own root under the share's public key never get this far: C10)
 			root = vrt.Byte(vrt.N("byzroot", i))
-			tok = [4]byte{1, 1, byte(share), root}
+			sroot = root
+			if split {
+				sroot = vrt.Byte(vrt.N("byzsroot", i))
+				if root == decided && sroot != decidedS {
+					blocked = true
+				}
+			}
+			tok = [4]byte{1, 1, byte(share), sroot}
 		} else if !seen[share] {
 			seen[share] = true
 			honestDistinct++
 		}
-		_ = db.StoreExternal(ctx, duty, core.ParSignedDataSet{vPkA: core.ParSignedData{SignedData: vSD{Root: root, Sig: tok}, ShareIdx: share}})
+		var sd core.SignedData = vSD{Root: root, Sig: tok}
+		if split {
+			sd = vSDE{Root: root, SRoot: sroot, Sig: tok}
+		}
+		_ = db.StoreExternal(ctx, duty, core.ParSignedDataSet{vPkA: core.ParSignedData{SignedData: sd, ShareIdx: share}})
 	}
 	vrt.Assert("at most one object is broadcast for the duty and validator by this node", broadcasts <= 1)
-	if honestDistinct >= t {
+	// (a Byzantine partial that is valid for its own signing root but shares the honest message root joins their group in
+	// the store; the aggregate then fails verification and nothing is broadcast: safe, but not live - DESIGN.md 8.12)
+	if honestDistinct >= t && !blocked {
 		vrt.Assert("once a threshold of honest shares arrived the signed object is broadcast", broadcasts == 1)
 		vrt.Reach("broadcast after honest threshold")
 	}
